@@ -83,6 +83,8 @@ type Scenario struct {
 	FreeBound int
 	// PoolMiss: sync.Pool.Get may return a fresh object although the pool holds one (a data choice).
 	PoolMiss bool
+	// NoBonus: no bounds beyond the required one on the bonus time budget.
+	NoBonus bool
 }
 
 // Stats of one exploration.
@@ -343,7 +345,7 @@ func Explore(sc *Scenario, maxBound, shard, nshards int, budget time.Duration, n
 	// bonus: when the required bound has been completed with time to spare, the next bounds are explored on a
 	// separate, short time budget. A bound completed there raises bound_completed; one that is not leaves
 	// everything as it was (the required bound stays completely explored). A violation found there counts.
-	if e.st.Exhaustive && e.viol == nil && e.infraErr == "" && BonusBudget > 0 && sc.FreeBound == 0 {
+	if e.st.Exhaustive && e.viol == nil && e.infraErr == "" && BonusBudget > 0 && sc.FreeBound == 0 && !sc.NoBonus {
 		bd := time.Now().Add(BonusBudget)
 		if !e.deadline.IsZero() && e.deadline.Before(bd) {
 			bd = e.deadline
